@@ -40,10 +40,20 @@ def queries(ctx):
                         unwind=20, unwindset=["hwloc_bitmap_set_range.0:65", "hwloc_bitmap_next.0:65"], checks=["bounds", "pointer"], object_bits=12,
                         kf=KF.get(kind), tiers=tiers, timeout=1500,
                         info=dict(info, symbolic=sym[kind], enumerated=["cores", "nb_threads argument", "kind of specification"], bounds={"NCORES": nc, "NBT": nbt})))
+    # the "hwloc" map: NSOCK sockets x NCORES/NSOCK cores x NHT hardware threads (enumerated), requested thread count symbolic
+    hw = [(2, 6, 1), (2, 4, 2)] + ([(3, 6, 1), (4, 8, 1), (3, 9, 1)] if ctx.thorough else [])
+    for (ns, nc, nht) in hw:
+        qs.append(Q("hwloc_s%d_c%d_ht%d" % (ns, nc, nht), ["h.c"], defs=["KIND=3", "NSOCK=%d" % ns, "NCORES=%d" % nc, "NHT=%d" % nht, "NBT=1"], units=[U],
+                    unwind=24, unwindset=["hwloc_bitmap_set_range.0:65", "hwloc_bitmap_next.0:65"], checks=["bounds", "pointer"], object_bits=12, timeout=1500,
+                    tiers=("quick", "thorough") if (ns, nc, nht) in hw[:2] else ("thorough",),
+                    info=dict(info, symbolic=["requested number of threads 1..NCORES*NHT+1"], enumerated=["sockets", "cores", "hardware threads per core"],
+                              functions=["parsec_vpmap_init", "parsec_vpmap_init_from_hardware_affinity"] + info["functions"][5:], bounds={"NSOCK": ns, "NCORES": nc, "NHT": nht})))
     return qs
 
 def mutants(ctx):
     return [
+        Mutant("hwloc_truncation_keeps_empty_vp", U, "                    parsec_nbvp = vp_id + 1;  /* Update the number of valid VP */", "                    parsec_nbvp = vp_id + 2 <= parsec_nbvp ? vp_id + 2 : vp_id + 1;", queries=["hwloc_s2_c6_ht1"]),
+        Mutant("hwloc_core_advances_per_thread", U, "                    goto complete_and_return;\n                }\n            }\n            core_id++;", "                    goto complete_and_return;\n                }\n            core_id++;\n            }", queries=["hwloc_s2_c4_ht2"]),
         Mutant("flat_range_end_off_by_one", U, "id * step, (id+1) * step - 1);", "id * step, (id+1) * step);", queries=["plain_c4_t2"]),
         Mutant("flat_total_threads_wrong", U, "    parsec_nb_total_threads = nbthreads;\n    return PARSEC_SUCCESS;", "    parsec_nb_total_threads = nbcores;\n    return PARSEC_SUCCESS;", queries=["plain_c4_t2"]),
         Mutant("init_consolidation_skips_last_thread", U, "for( int j = 0; j < parsec_vpmap[i].nbthreads; j++ ) {\n            if( NULL == parsec_vpmap[i].threads[j].cpuset ) {", "for( int j = 0; j < parsec_vpmap[i].nbthreads - 1; j++ ) {\n            if( NULL == parsec_vpmap[i].threads[j].cpuset ) {", queries=["plain_c4_t2"]),
